@@ -5,7 +5,7 @@ use crate::val::E;
 
 /// single-input operators that have an exact list model
 pub fn list_ops(full: bool) -> Vec<Op1> {
-  let counts: Vec<usize> = if full { vec![0, 1, 2, 3, 5] } else { vec![1, 2] };
+  let counts: Vec<usize> = if full { vec![0, 1, 2, 3, 5, usize::MAX] } else { vec![1, 2] };
   let preds: Vec<P> = if full { P::ALL.to_vec() } else { vec![P::Lt2] };
   let keys: Vec<K> = if full { K::ALL.to_vec() } else { vec![K::Mod2] };
   let mut v = vec![Op1::Map, Op1::MapTo(7), Op1::Tap];
@@ -29,7 +29,7 @@ pub fn list_ops(full: bool) -> Vec<Op1> {
     v.push(Op1::SkipLast(*n));
   }
   v.extend([Op1::First, Op1::FirstOr(9), Op1::Last, Op1::LastOr(9)]);
-  for k in if full { vec![0, 1, 2, 4] } else { vec![1] } {
+  for k in if full { vec![0, 1, 2, 4, usize::MAX] } else { vec![1] } {
     v.push(Op1::ElementAt(k));
   }
   v.push(Op1::IgnoreElements);
@@ -59,7 +59,7 @@ pub fn list_ops(full: bool) -> Vec<Op1> {
     v.push(Op1::DistinctUntilKeyChanged(*k));
   }
   v.push(Op1::Pairwise);
-  for n in if full { vec![1, 2, 3] } else { vec![2] } {
+  for n in if full { vec![1, 2, 3, usize::MAX] } else { vec![2] } {
     v.push(Op1::BufferWithCount(n));
   }
   for n in if full { vec![0, 1, 9] } else { vec![1] } {
